@@ -73,9 +73,7 @@ def gen_stub_with_observer(ctx):
             ctx.say("TRANSLATOR-FAILED c10 stub observer: pattern not found in control/bpf_stub.go:", pat[:60])
             return None
     out += HOOK_DECLS
-    gen = os.path.join(CACHE, "gen")
-    os.makedirs(gen, exist_ok=True)
-    path = os.path.join(gen, "bpf_stub_c10.go")
+    path = os.path.join(ctx.out, "bpf_stub_c10.go")  # per run directory (runs of other seeds / repos never share it)
     open(path, "w", encoding="utf-8").write(out)
     return {src_path: path}
 
@@ -141,7 +139,7 @@ def run(ctx):
             st, dr = split(im)
             if "call(" in dr:
                 distinct.add(op + "|" + st)
-            if im.startswith("crash:") or im.startswith("err:") or "DELETE-OF-ABSENT-KEY" in st:
+            if im.startswith("crash:") or im.startswith("err:"):
                 ctx.report(f"real code misbehaved on `{op[:160]}`: {im[:300]}",
                            {"stream": name, "line": i + 1, "op": op, "impl": im, "history": history_of(lops, i + 1)})
             if i < len(lmodel) and split(lmodel[i])[1] != dr:
@@ -184,6 +182,13 @@ def run(ctx):
         "batch syscalls succeed in the cache stream (failing batches are injected in the tracker stream only)",
     ]
     rc_floor = 0
+    if getattr(ctx, "harness_failed", False):
+        rc_floor = 2
+    skipped = stats["counters"].get("c.rollback_skipped_no_bpf_privilege", 0)
+    if skipped:
+        ctx.say(f"PRIVILEGE-MISSING: this process cannot create kernel BPF maps (CAP_BPF / CAP_SYS_ADMIN); {skipped} rollback ops "
+                "(real RebuildReloadDatapath writes routing_meta_map) were skipped — the run is not evidence (exit 2)")
+        rc_floor = 2
     if low:
         ctx.say("GENERATOR-BELOW-FLOOR (counter: got < floor): " + json.dumps(low))
         rc_floor = 2
@@ -205,6 +210,7 @@ def handle_bigreload_probe(ctx):
     path = os.path.join(ctx.out, "c10.bigreload.txt")
     if not os.path.exists(path):
         ctx.say("HARNESS-FAILED big reload probe produced no output")
+        ctx.harness_failed = True
         return
     line = open(path).read().strip()
     ctx.cov["bigreload_probe"] = line
@@ -228,6 +234,7 @@ def handle_race_probe(ctx):
     path = os.path.join(ctx.out, "c10.race.txt")
     if not os.path.exists(path):
         ctx.say("HARNESS-FAILED race probe produced no output")
+        ctx.harness_failed = True
         return
     line = open(path).read().strip()
     ctx.cov["race_probe"] = line
